@@ -39,17 +39,19 @@ Fixpoint parse_blocks (fuel : nat) (blocks : list (list N)) (o : list N) : bool 
   end.
 
 Inductive case :=
-| CRun (jobs : list (list seg)) (observed : list N) (totals : N * N * N) (exit_seq exit_par : N).
+| CRun (jobs : list (list seg)) (observed : list N) (totals : N * N * N) (exit_seq exit_par : N)
+       (worker_panicked : bool).   (* one of the jobs is a file whose check panics in the worker *)
 
 Definition check_case (c : case) : N * N :=
   match c with
-  | CRun jobs observed totals e1 e2 =>
+  | CRun jobs observed totals e1 e2 panicked =>
       let blocks := List.filter (fun b => match b with [] => false | _ => true end) (flat_map job_blocks jobs) in
       let atomic := parse_blocks (S (List.length blocks)) blocks observed in
       let '(e, w, p) := totals in
       let sums := (e =? sumN (map (adds_segs CErr) jobs)) && (w =? sumN (map (adds_segs CWarn) jobs))
                   && (p =? sumN (map (adds_segs CParse) jobs)) in
-      ((bit (negb atomic) 4 + bit (negb sums) 8 + bit (negb (e1 =? e2)) 16)%N, 0%N)
+      ((bit (negb atomic) 4 + bit (negb sums) 8 + bit (negb (e1 =? e2)) 16
+        + bit (panicked && ((e1 =? 0) || (e2 =? 0))) 32)%N, 0%N)
   end.
 
 Definition run := Common.run check_case.
